@@ -38,6 +38,13 @@ CM_H = 'src/tbb/concurrent_monitor.h'
 CQ_H = 'include/oneapi/tbb/concurrent_queue.h'
 
 MUTANTS = [
+    dict(name='c10-seed2-stale-prev-after-upgrade', prop='C10', clause='D1', edits=[(CHM_H, """            bucket_accessor b( this, hash & mask );
+        search:
+            node_base* prev = nullptr;
+            erase_node = b()->node_list.load(std::memory_order_relaxed);""", """            bucket_accessor b( this, hash & mask );
+            node_base* prev = nullptr;
+        search:
+            erase_node = b()->node_list.load(std::memory_order_relaxed);""")]),
     dict(name='c16-seed2-destroy-takes-largest-control', prop='C16', clause='D5', edits=[('src/tbb/global_control.cpp',
         "            new_active = (*c->my_list.begin())->my_value;", "            new_active = (*c->my_list.rbegin())->my_value;")]),
     dict(name='c15-seed2-duplicate-key-accepted', prop='C15', clause='D2', edits=[('include/oneapi/tbb/detail/_flow_graph_join_impl.h',
